@@ -57,6 +57,9 @@ def main(tier, rep):
             steps.append(("call", "add", False, None, "all"))
             traces.append(L.run_program(cfg, steps, miss=L.miss_result(cfg)))
     L.validate(rep, traces, relevant, PROP)
+    # spec -> code: the pooled + idle-clock variant of the as-coded model spec/Conn.tla
+    from drivers import connmodel
+    connmodel.design_and_replay(rep, tier, PROP, relevant, kinds=["pooled", "hashpooled"], pooled=True, idle=1)
     npool = pool_level(rep, tier)
     rep.set("pool_level_histories", npool)
     rep.set("evaluations", len(traces))
